@@ -48,6 +48,14 @@ def gen(rng, tier):
                         reqs.append("C01 %s %s %s" % (op, wu(b), wu(a)))
                     iop = rng.choice(["i.add", "i.sub", "i.add_assign", "i.sub_assign", "i.checked_add", "i.checked_sub"])
                     reqs.append("C01 %s %s %s" % (iop, wi(signed(rng, a)), wi(signed(rng, b))))
+        # scalar on the left (`u32/u64/u128 - BigUint`): the result is computed in the big operand's buffer;
+        # underflow must panic for every width, also when the subtrahend has a single digit
+        for (op, bits) in (("u.sub_from_u32", 32), ("u.sub_from_u64", 64), ("u.sub_from_u128", 128)):
+            top = (1 << bits) - 1
+            for sc in (0, 1, 2, 5, top, top - 1, 1 << (bits - 1), rng.randrange(top + 1)):
+                for b in (0, 1, 2, sc, sc + 1, max(sc - 1, 0), MAX, B, B + 1, B * B, rng.randrange(1, B), big(rng, 2), big(rng, 3),
+                          (sc + rng.randrange(1, 1 << 20))):
+                    reqs.append("C01 %s %d %s" % (op, sc, wu(b)))
         # internal add2 on raw slices
         for la in ls:
             for lb in {0, 1, la, max(0, la - 1), max(0, la - 5), la // 2}:
